@@ -611,3 +611,56 @@ def findRow (T : List SaveRow) (cls branch : String) : Option SaveRow :=
 def SaveRow.fields (r : SaveRow) : List String := r.writes.map Entry.slot
 
 end KawinV.SaveLoad
+
+/-!
+## `fromJson(file)` into ANY receiver (Surrogate.py `_processSurrogateData`), file names with dots (round 6)
+
+`fromJson` does not construct an object: it is called ON an object, which may already hold training data and fitted
+kernels (a coarse preliminary training, an older file).  The code REPLACES the data dictionaries by the file's and then
+refits every quantity the file holds, in the fixed order, with the receiver's settings; it never clears the dictionaries
+of fitted kernels (a quantity the file does not hold keeps the kernel the receiver had — recorded finding).
+-/
+namespace KawinV.SurrogateFit
+
+/-- `receiver.fromJson(file)`: `file q` = the stored training data of quantity `q` in the file (`none`: not in the file) -/
+def loadInto {δ π : Type} (h : Hooks π) (r : Surr δ π) (file : Q → Option (Train δ π)) : Surr δ π :=
+  refitOrder.foldl (fitQ h) { settings := r.settings, data := file, models := r.models }
+
+/-- VARIANT (not the code): "fitting is the expensive part of loading" — a quantity is fitted only when the receiver has no
+kernel for it yet -/
+def fitIfMissing {δ π : Type} (h : Hooks π) (s : Surr δ π) (q : Q) : Surr δ π :=
+  match s.models q with
+  | some _ => s
+  | none => fitQ h s q
+
+def loadIntoFitMissing {δ π : Type} (h : Hooks π) (r : Surr δ π) (file : Q → Option (Train δ π)) : Surr δ π :=
+  refitOrder.foldl (fitIfMissing h) { settings := r.settings, data := file, models := r.models }
+
+end KawinV.SurrogateFit
+
+namespace KawinV.SaveLoad
+
+/-- VARIANT (not the code): `os.path.splitext(filename)[0] + '.npz'` — everything behind the last dot of the last path
+component is cut off (a leading dot of the component is not an extension), on the characters in reverse order -/
+def splitextStemRev : List Char → List Char → List Char
+  | [], _ => []                                       -- no dot found: the caller keeps the whole name
+  | '/' :: _, _ => []
+  | '.' :: rest, _seen =>
+    match rest with
+    | [] => []                                        -- the dot leads the name
+    | '/' :: _ => []                                  -- the dot leads the component
+    | _ => rest
+  | c :: rest, seen => splitextStemRev rest (c :: seen)
+
+def splitextName (f : String) : String :=
+  match splitextStemRev f.toList.reverse [] with
+  | [] => f ++ ".npz"
+  | stemRev => String.ofList stemRev.reverse ++ ".npz"
+
+/-- one save under name `f` with a given file-naming function -/
+def Store.writeNamed {α : Type} (nm : String → String) (st : Store α) (f : String) (d : Dict α) : Store α := st.write (nm f) d
+
+/-- the distinct file names of a store (what a directory listing shows) -/
+def Store.names {α : Type} (st : Store α) : List String := (st.map (·.1)).eraseDups
+
+end KawinV.SaveLoad
